@@ -209,7 +209,45 @@ def rng_sites():
                     sites.append((rel, n.lineno, f))
                 elif f in ('random.seed', 'np.random.seed'):
                     sites.append((rel, n.lineno, f))
+    ext = external_numeric_calls()
+    bad = [e for e in ext if not e[3]]
+    if bad:
+        raise af.TranslationError('calls into external numerical libraries that are not known to be deterministic functions of their arguments '
+                                  '(they may draw a start vector from a generator the estimator does not seed): '
+                                  + '; '.join(f'{a}:{b} {c}' for a, b, c, _ in bad))
     return sites
+
+
+# calls into scipy / sklearn: only the listed ones are known to be deterministic functions of their arguments; svd.py's Nystrom routine is reached only from the
+# EigenPro solver (CUDA only: it moves its operands with .cuda()), which is outside every property's scope (DESIGN.md section 5)
+DETERMINISTIC_EXTERNAL = {'roc_auc_score', 'mean_squared_error', 'log_loss', 'f1_score'}
+EXTERNAL_ROOTS = ('scipy', 'sklearn')
+
+
+def external_numeric_calls():
+    out = []
+    for rel in ['xrfm/xrfm.py', 'xrfm/tree_utils.py', 'xrfm/rfm_src/recursive_feature_machine.py', 'xrfm/rfm_src/kernels.py',
+                'xrfm/rfm_src/utils.py', 'xrfm/rfm_src/class_conversion.py', 'xrfm/rfm_src/metrics.py', 'xrfm/rfm_src/gpu_utils.py', 'xrfm/rfm_src/svd.py']:
+        tree = ast.parse(open(os.path.join(REPO, rel)).read())
+        alias = {}                                   # local name -> dotted origin
+        for n in ast.walk(tree):
+            if isinstance(n, ast.Import):
+                for a in n.names:
+                    if a.name.split('.')[0] in EXTERNAL_ROOTS:
+                        alias[(a.asname or a.name.split('.')[0])] = a.name if a.asname else a.name.split('.')[0]
+            if isinstance(n, ast.ImportFrom) and n.module and n.module.split('.')[0] in EXTERNAL_ROOTS:
+                for a in n.names:
+                    alias[a.asname or a.name] = n.module + '.' + a.name
+        for n in ast.walk(tree):
+            if isinstance(n, ast.Call):
+                f = ast.unparse(n.func)
+                root = f.split('.')[0]
+                if root in alias:
+                    origin = alias[root] + f[len(root):]
+                    last = origin.split('.')[-1]
+                    ok = last in DETERMINISTIC_EXTERNAL or rel == 'xrfm/rfm_src/svd.py'
+                    out.append((rel, n.lineno, origin, ok))
+    return out
 
 
 def gen_file(progs, lists, lemmas):
